@@ -259,6 +259,43 @@ func CheckC14(tier string, seed uint64, rep *core.Reporter) (*core.Evidence, err
 				compare(d, "sim", "lox-sim", fmt.Sprintf("%s/%d", c.mode, c.seed), c.cwd, res)
 				restore(d)
 			}
+			// H8: a regeneration that fails (go list error) or is told to
+			// terminate (SIGTERM) between two writes, on the unchanged tree: the
+			// files it did write are the checked-in bytes, the others must be
+			// untouched - a failed or interrupted attempt must not leave the
+			// directory in a state that no longer matches the generator.
+			for k, flt := range []Fault{{Fn: "packages.Load", Kind: "error"}, {Fn: "packages.Load", Kind: "signal"}, {Fn: "os.ReadDir", Kind: "signal"}} {
+				op := &OpDesc{Run: "c14", Map: MapCfg{Mode: "asc"}, Ticks: TickBudget, Faults: []Fault{flt}}
+				res, err := t.Generate(Invocation{Bin: t.LoxSim, Dir: abs, CwdMode: "dot", Op: op}, fmt.Sprintf("c14-%d-h8-%d", di, k))
+				if err != nil {
+					fail(err)
+					return
+				}
+				mu.Lock()
+				generations++
+				same := true
+				for _, g := range GenFiles {
+					if want, ok := orig[d][g]; ok {
+						got, present := res.Files[g]
+						if !present || !bytes.Equal(want, got) {
+							same = false
+							what := "missing"
+							if present {
+								what = firstDiff(want, got)
+							}
+							rep.Report(core.Signature{"class": "failed-run-damaged-files", "dir": d, "file": g, "fault": flt.Kind},
+								fmt.Sprintf("after a regeneration attempt with fault %s at %s (exit %d) the checked-in %s is %s", flt.Kind, flt.Fn, res.Exit, g, what),
+								map[string]any{"dir": d, "history": "failed-run", "fault": flt})
+						}
+					}
+				}
+				cases = append(cases, c14Case{Dir: d, History: "failed-run:" + flt.Kind + "@" + flt.Fn, Binary: "lox-sim", Map: "asc", Cwd: "dot", Exit: res.Exit, Equal: same})
+				if same {
+					distinct[d+"|failed-run|"+flt.Kind+"|"+flt.Fn] = true
+				}
+				mu.Unlock()
+				restore(d)
+			}
 			if tier == "thorough" {
 				// H5: a generation killed in the middle of each write, then a
 				// plain regeneration over what it left behind.
@@ -352,7 +389,7 @@ func CheckC14(tier string, seed uint64, rep *core.Reporter) (*core.Evidence, err
 			"samples":                    cases[:nSamples],
 			"exhaustive":                 false,
 			"directories":                dirs,
-			"histories":                  []string{"warm", "cold", "stale-from-other-grammar", "sim map orders", "after-crash (thorough)", "bootstrap-gen2", "go build ./..."},
+			"histories":                  []string{"warm", "cold", "stale-from-other-grammar", "sim map orders", "failed or interrupted attempt leaves the checked-in bytes", "after-crash (thorough)", "bootstrap-gen2", "go build ./..."},
 			"second_bootstrap":           boot,
 			"p1_sites_visited":           sites,
 			"p1_sites_total":             len(t.Instr.P1Sites),
